@@ -345,7 +345,17 @@ func (e *Engine) fpCmp(op Op, a, b *Term) *Term {
 	return e.tt.Raw(op, BoolSort, 0, a, b)
 }
 
+// fpVal turns a constant FP term (e.g. an uninterpreted function's value read
+// from a replayed model) into a concrete float64.
+func fpVal(v Value) Value {
+	if t, ok := v.(*Term); ok && t.op == OFpConst {
+		return math.Float64frombits(t.c.Uint64())
+	}
+	return v
+}
+
 func (e *Engine) floatBinop(op token.Token, x, y Value) Value {
+	x, y = fpVal(x), fpVal(y)
 	xf, xc := x.(float64)
 	yf, yc := y.(float64)
 	if xc && yc {
@@ -401,6 +411,7 @@ func (e *Engine) unop(op token.Token, t types.Type, x Value) Value {
 		return tt.Not(x.(*Term))
 	case token.SUB:
 		if isFloat(t) {
+			x = fpVal(x)
 			if f, ok := x.(float64); ok {
 				return -f
 			}
@@ -510,7 +521,7 @@ func (e *Engine) conv(dst, src types.Type, x Value) Value {
 				return e.convInt(x.(*Term), sw, ss, dw, ds)
 			}
 			if isFloat(us) {
-				switch f := x.(type) {
+				switch f := fpVal(x).(type) {
 				case float64:
 					if ds {
 						return e.mkInt(db, int64(f))
